@@ -319,6 +319,27 @@ def uuid_conflict(wb, a):
                 yield ({"sheet": [n1, n2], "pos": [q1, q2], "how": "conflicting obj_id across two flows"}, w, pat)
 
 
+    # one of the two conflicting identifiers sits inside a template that is INSERTED AS A BLOCK, on a row whose
+    # obj_id is recorded while the block is parsed (split_by_group / start_new_flow); the other in another flow
+    inserted = {r.get("message_text", "").strip() for (_n, rows, _st) in fs for r in rows if r.get("type") == "insert_as_block"}
+    mk2 = lambda t, u: {"type": t, "from": "start", "message_text": "Conflict Group" if t != "start_new_flow" else "conflict flow", "obj_id": u}  # noqa: E731
+    for (n1, r1, s1) in fs:
+        if n1 not in inserted:
+            continue
+        others = [(n2, r2, s2) for (n2, r2, s2) in fs if n2 != n1 and n2 not in inserted]
+        p1 = [p for p, _ in insert_positions(r1, s1)]
+        for (n2, r2, s2) in others[:2]:
+            p2 = [p for p, _ in insert_positions(r2, s2)]
+            if not p1 or not p2:
+                continue
+            for t in ("split_by_group", "start_new_flow"):
+                for q1 in (p1[0], p1[-1]):
+                    w = _with_rows(wb, n1, _insert(r1, q1, [mk2(t, U[2])]))
+                    w = _with_rows(w, n2, _insert(r2, p2[-1], [mk2(t, U[3])]))
+                    yield ({"sheet": [n1, n2], "pos": [q1, p2[-1]], "how": "conflicting obj_id of " + t + " inside an inserted block and in another flow",
+                            "posclass": "inside a template inserted as a block"}, w, pat)
+
+
 # ------------------------------------------------------------------ index level
 
 
